@@ -5,6 +5,7 @@ import (
 	"encoding/binary"
 	"fmt"
 	"sort"
+	"strings"
 
 	"github.com/nspcc-dev/neo-go/pkg/core/mpt"
 	"github.com/nspcc-dev/neo-go/pkg/core/native/nativehashes"
@@ -236,12 +237,28 @@ func (r *run) verifyRoot(n *Node, h uint32, fs *flatState) {
 				return
 			}
 		}
-		// paged FindStates (page size 2) must give the same sequence
+		// paged FindStates (page size 1-3; prefix = the contract id, or extended by the first byte of a present key)
+		// must give the same sequence
 		if len(want) > 0 && r.tape.Chance(1, 2) {
+			page := 1 + r.tape.Choose(3)
+			prefix := bytes.Clone(idb[:])
+			wantP := want
+			if r.tape.Chance(1, 2) {
+				if k := want[r.tape.Choose(len(want))]; len(k) > 4 {
+					prefix = append(prefix, k[4])
+					wantP = nil
+					for _, w := range want {
+						if strings.HasPrefix(w, string(prefix)) {
+							wantP = append(wantP, w)
+						}
+					}
+					r.out.Probes["c03_paged_find_key_prefix"]++
+				}
+			}
 			var paged []string
 			var start []byte
-			for guard := 0; guard < len(want)+3; guard++ {
-				kvs, err := sm.FindStates(root, idb[:], start, 2)
+			for guard := 0; guard < len(wantP)+3; guard++ {
+				kvs, err := sm.FindStates(root, prefix, start, page)
 				if err != nil {
 					break
 				}
@@ -255,19 +272,19 @@ func (r *run) verifyRoot(n *Node, h uint32, fs *flatState) {
 						return
 					}
 				}
-				start = bytes.Clone(kvs[len(kvs)-1].Key[4:])
-				if len(kvs) < 2 {
+				start = bytes.Clone(kvs[len(kvs)-1].Key[len(prefix):])
+				if len(kvs) < page {
 					break
 				}
 			}
 			// nil start includes the item equal to the prefix, later pages exclude `start` itself
-			if len(paged) != len(want) {
-				r.violate(sim.Violatef("c03-find", "c03-find/count", "%s: paged FindStates at height %d returned %d items for contract %d, expected %d", n.Name, h, len(paged), id, len(want)))
+			if len(paged) != len(wantP) {
+				r.violate(sim.Violatef("c03-find", "c03-find/count", "%s: FindStates(prefix %x, page size %d) continued page by page at height %d returned %d items (%x), live storage had %d (%x)", n.Name, prefix, page, h, len(paged), paged, len(wantP), wantP))
 				return
 			}
-			for i := range want {
-				if paged[i] != want[i] {
-					r.violate(sim.Violatef("c03-find", "c03-find/order", "%s: paged FindStates at height %d item %d is %x, expected %x", n.Name, h, i, paged[i], want[i]))
+			for i := range wantP {
+				if paged[i] != wantP[i] {
+					r.violate(sim.Violatef("c03-find", "c03-find/order", "%s: paged FindStates(prefix %x, page size %d) at height %d item %d is %x, expected %x", n.Name, prefix, page, h, i, paged[i], wantP[i]))
 					return
 				}
 			}
